@@ -2395,7 +2395,7 @@ column_41			(vbi_page *		pg,
 	acp = pg->text + 41;
 
 	if (!black0 && cont39) {
-		for (row = 1; row <= 24; ++row) {
+		for (row = 1; row <= 23; ++row) {
 			acp[40] = acp[39];
 
 			if (!vbi_is_gfx (acp[39].unicode))
@@ -2413,7 +2413,7 @@ column_41			(vbi_page *		pg,
 		ac.background	= ext->background_clut + VBI_BLACK;
 		ac.opacity	= pg->page_opacity[1];
 
-		for (row = 1; row <= 24; ++row) {
+		for (row = 1; row <= 23; ++row) {
 			acp[40] = ac;
 			acp += 41;
 		}
